@@ -48,10 +48,14 @@ class ChunkParser:
             self.chunk = b''
             # Extract following chunk data size
             line, raw = find_http_line(raw)
-            # CRLF not received or Blank line was received.
-            if line is None or line.strip() == b'':
+            # CRLF not received.
+            if line is None:
                 self.chunk = raw
                 raw = b''
+            # Blank line was received: the CRLF terminating previous chunk
+            # data arrived in a later read.  Skip it, keep parsing the rest.
+            elif line.strip() == b'':
+                pass
             else:
                 self.size = int(line, 16)
                 self.state = chunkParserStates.WAITING_FOR_DATA
